@@ -90,6 +90,33 @@ def body(run):
                 degenerate = len(vals) < 2 or len(set(vals)) < 2
             except Exception:
                 degenerate = False
+        # gain-blk-offset normalises each block by std(ref) / std(src) over its jointly valid pixels: a block with fewer than two of them
+        # (or a single source value) has no normalisation (0 / 0): classified (finding D16)
+        blk_degenerate = False
+        if lost.any() and model == 'gain-blk-offset':
+            try:
+                from homonim.raster_pair import RasterPairReader
+                from homonim.enums import ProcCrs
+                from homonim import utils as hutils
+                blk_degenerate = True
+                with RasterPairReader(pair['src_fn'], pair['ref_fn'], proc_crs=ProcCrs(res['proc_crs'])) as rd:
+                    bps = list(rd.block_pairs(overlap=hutils.overlap_for_kernel(kshape), max_block_mem=mbm))
+                    for (r, c) in np.argwhere(lost):
+                        bp = next(b for b in bps if b.src_out_block.row_off <= r < b.src_out_block.row_off + b.src_out_block.height
+                                  and b.src_out_block.col_off <= c < b.src_out_block.col_off + b.src_out_block.width)
+                        src_ra, ref_ra = rd.read(bp)
+                        if res['proc_crs'] == 'ref':
+                            from rasterio.enums import Resampling
+                            src_ra = src_ra.reproject(**ref_ra.proj_profile, resampling=Resampling.average)
+                        else:
+                            from rasterio.enums import Resampling
+                            ref_ra = ref_ra.reproject(**src_ra.proj_profile, resampling=Resampling[ups if g.ratio >= 1 else 'average'])
+                        jm = src_ra.mask & ref_ra.mask
+                        if len(set(np.asarray(src_ra.array)[jm].tolist())) >= 2:
+                            blk_degenerate = False
+                            break
+            except Exception:
+                blk_degenerate = False
         if lost.any():
             r, c = [int(v) for v in np.argwhere(lost)[0]]
             col_all = bool(lost[:, c].all())
@@ -97,7 +124,7 @@ def body(run):
             run.add_violation('a valid source pixel is invalid in the corrected image', desc,
                               observed=dict(pixel=[r, c], n=int(lost.sum()), whole_column=col_all, whole_row=row_all, value=float(res['corr']['array'][0, r, c])),
                               signature=dict(kind='mask-lost', whole_line=col_all or row_all,
-                                             cause='gain-offset-degenerate-window' if degenerate else 'other'))
+                                             cause='gain-offset-degenerate-window' if degenerate else ('blk-offset-degenerate-block' if blk_degenerate else 'other')))
     run.cov['evaluations'] += ncorr
     run.cov['rule'] = ('real fusions of positive textured data with the reference valid over the footprint: geometries (ratios, sub-pixel offsets with the x.5 / x.25 '
                        'family over-sampled, origins up to 7.6e6), source masks (holes, 1-px islands, borders, a nearly empty block), 3 models, kernels incl. h != w, '
